@@ -603,7 +603,9 @@ def run(repo, rep):
     # the object wrapper named in the property's observe_at list hands its ellipsoid and projection on
     ThreadRule(repo, rep).check_function(repo.func('geodepy.coord', 'CoordTM.geo'), roles=('ellipsoid', 'prj'))
     from . import c15
-    c15.delegation_rules(repo, rep, only=('CoordTM.geo',))
+    c15.delegation_rules(repo, rep, only=('CoordTM.geo', 'CoordGeo.tm'))
+    # ... and a rounded grid coordinate is still the coordinate of its hemisphere and projection
+    c15.round_rules(repo, rep)
     rep.floor('R-TABLE', 17, '8 library rows, 8 stand-alone rows, stand-alone rectifying radius')
 
 
